@@ -309,6 +309,9 @@ func c05Generic(clause string) string {
 		b.WriteRune(r)
 	}
 	s := b.String()
+	if i := strings.IndexByte(s, '{'); i >= 0 {
+		s = s[:i] // written-out messages are detail, not clause kind
+	}
 	if len(s) > 90 {
 		s = s[:90]
 	}
@@ -785,12 +788,20 @@ func c05ReassemblerSequences(sh *evidence.Shard) {
 			clause, emitted := c05SequenceRun(cfg, idx)
 			p.Class(cfg.Name, c05SeqShape(cfg, idx), emitted, clause == "")
 			if clause != "" {
-				// minimal case: shortest failing prefix
+				// minimal case: shortest failing prefix, then drop every feed that is not needed
 				h := append([]int{}, idx...)
 				for n := 1; n <= len(h); n++ {
 					if cl, _ := c05SequenceRun(cfg, h[:n]); cl != "" {
 						h, clause = h[:n], cl
 						break
+					}
+				}
+				for i := 0; i < len(h); {
+					g := append(append([]int{}, h[:i]...), h[i+1:]...)
+					if cl, _ := c05SequenceRun(cfg, g); cl != "" {
+						h, clause = g, cl
+					} else {
+						i++
 					}
 				}
 				names := c05Names(cfg, h)
